@@ -80,12 +80,12 @@ def gen(rng, scenario, tier):
                "direction": rng.choice(["positive", "negative"])}
         return {"cfg": cfg, "events": xs, "drift_positions": []}
     if scenario == "ph":
-        xs, drifts = workload.stream_values(rng, n, kind=rng.choice(["gauss", "gauss", "ramp", "heavy", "bern"]))
+        xs, drifts = workload.stream_values(rng, n, kind=rng.choice(["gauss", "gauss", "ramp", "heavy", "bern"]), regimes=("offset", "tiny", "lattice"))
         cfg = {"det": "ph", "burn_in": rng.choice([0, 1, 2, 5, 10, 25]), "delta": rng.choice([0.005, 0.1, 0.5]),
                "threshold": rng.choice([0, 1, 3, 8, 20]), "direction": rng.choice(["positive", "negative"])}
     else:
         xs, drifts = workload.stream_values(rng, n, kind=rng.choice(["gauss", "gauss", "ramp", "heavy"]),
-                                            drift_rate=rng.choice([0.01, 0.02, 0.04]))
+                                            drift_rate=rng.choice([0.01, 0.02, 0.04]), regimes=("offset", "tiny", "lattice"))
         cfg = {"det": "cusum", "burn_in": rng.randint(2, 25), "delta": rng.choice([0.005, 0.25, 0.5]),
                "threshold": rng.choice([3, 5, 10, 25]), "direction": rng.choice([None, "positive", "negative"]),
                "target": None, "sd_hat": None}
